@@ -115,6 +115,7 @@ def decide(h, meta, cfg):
 
 def _decide(h, meta, cfg, r):
     name = h['name']
+    engine.PORTFOLIO = h.get('portfolio', 4)
     work = os.path.join(BUILD, 'work', h['prop'], name)
     shutil.rmtree(work, ignore_errors=True)
     os.makedirs(work, exist_ok=True)
@@ -544,15 +545,20 @@ def main(argv=None):
         return 2
     results = []
     order = sorted(hs.values(), key=lambda h: -h['unwind'])
-    with cf.ProcessPoolExecutor(max_workers=a.jobs) as ex:
-        futs = {ex.submit(decide, h, metas[h['name']], cfg): h for h in order}
-        for f in cf.as_completed(futs):
-            r = f.result()
-            results.append(r)
-            log.write(json.dumps(r) + '\n')
-            log.flush()
-            if os.environ.get('KSMT_VERBOSE'):
-                print(f"  {r['harness']:40s} {r['verdict']:10s} {r['wall_s']:7.1f}s {r['detail'][:100]}", flush=True)
+    # memory-heavy obligations (annotation @weight w) run in their own rounds, at most jobs // w at a time
+    rounds = {}
+    for h in order:
+        rounds.setdefault(max(1, h.get('weight', 1)), []).append(h)
+    for w in sorted(rounds):
+        with cf.ProcessPoolExecutor(max_workers=max(1, a.jobs // w)) as ex:
+            futs = {ex.submit(decide, h, metas[h['name']], cfg): h for h in rounds[w]}
+            for f in cf.as_completed(futs):
+                r = f.result()
+                results.append(r)
+                log.write(json.dumps(r) + '\n')
+                log.flush()
+                if os.environ.get('KSMT_VERBOSE'):
+                    print(f"  {r['harness']:40s} {r['verdict']:10s} {r['wall_s']:7.1f}s {r['detail'][:100]}", flush=True)
     # sufficient-condition obligations that did not come back unsat: decide their necessary-side fallbacks now
     need = sorted({f for r in results if r['verdict'] == 'undecided' and hs[r['harness']].get('sufficient')
                    for f in hs[r['harness']].get('fallback', []) if f in metas and f not in hs})
